@@ -1015,7 +1015,6 @@ def invalid_lists():
         for prop, spec in S["properties"].items():
             t = spec.get("type")
             if isinstance(t, list):
-                wrong = [True] if "array" not in t else None
                 p = copy.deepcopy(base)
                 p[prop] = {"a": 1}
                 out.append((f"{name}: {prop} has wrong type", [op_dict(name, p)]))
